@@ -477,6 +477,12 @@ pub fn gen_c12(rng: &mut Rng, tier: Tier) -> NetProgram {
         prog.modules[a].beats.push(Beat { at_ns: 30 * SEC, acts: vec![Act::Send { gate: 0, delay_ns: 0, body: 1 }] });
         prog.modules[a].beats.sort_by_key(|b| b.at_ns);
     }
+    // the application that a fault-free run hands back may be given to a second runtime: a second, complete life cycle
+    let faults = prog.inner_end_err
+        || prog.modules.iter().any(|m| {
+            m.end_err || m.panic_at != 255 || !m.start_acts.is_empty() || m.beats.iter().any(|b| b.acts.iter().any(|a| matches!(a, Act::Panic | Act::Shutdown { .. })))
+        });
+    prog.rerun = rng.chance(1, 5) && !faults;
     prog
 }
 
